@@ -2936,10 +2936,15 @@ def _put_slice_Call_ClassDef_keywords(
         raise NodeError(f'cannot put to {ast.__class__.__name__}.keywords slice because it precedes {exprs_field}'
                         f", try the '_{exprs_field}' field")
 
-    nexprs = len(exprs)
+    if start == stop:  # pure insertion, Starred exprs can follow keywords so get the real position in the arglikes
+        arglikes = self._cached_arglikes()
+        start = stop = arglikes.index(body[start]) if start < len(body) else len(arglikes)
 
-    return _put_slice_Call_ClassDef_arglikes(self, code, start + nexprs, stop + nexprs, '_' + exprs_field, one, options,
-                                             kw_only=True)
+    else:
+        start += (nexprs := len(exprs))
+        stop += nexprs
+
+    return _put_slice_Call_ClassDef_arglikes(self, code, start, stop, '_' + exprs_field, one, options, kw_only=True)
 
 
 def _put_slice_MatchSequence_patterns(
